@@ -148,7 +148,8 @@ def run_impl(case, objs):
         init += [int(s.keepalive), int(s.last_sent), int(s.last_print)]
         rows, calls, times = [], [], []
         t = case['t_main']
-        for dt, kind, dk in case['steps']:
+        for st in case['steps']:
+            dt, kind, dk = st[0], st[1], st[2]
             t += dt
             clock.now = t
             obj = _NOP if kind == 'none' else objs[kind]
@@ -316,12 +317,48 @@ Fixpoint exp_obs (l : list (Z * Z * Z * Z)) (e : list (list Z)) : list (list Z) 
   | (c, _, _, n) :: l', (o :: cd :: sb :: _) :: e' => (if o =? 2 then [2; c; cd; sb] else [o; n; 0; 0]) :: exp_obs l' e'
   | _, _ => []
   end.
-Definition okc (x : Z * (Z * Z * Z) * list (Z * Z * Z * Z) * list Z * list (list Z)) : bool :=
-  match x with (H, (t_rt, t_ka, t_main), calls, einit, erows) =>
+Definition okc (x : Z * (Z * Z * Z) * list (Z * Z * Z * Z) * list Z * list (list Z) * list Z) : bool :=
+  match x with (H, (t_rt, t_ka, t_main), calls, einit, erows, _) =>
     let s := session_init H t_rt t_ka t_main in
     zleq (init_obs H t_rt t_ka t_main) einit
     && zlleq (sim (rt s) (stt s) calls) erows
     && zlleq (map obs_z (run_main s (to_steps t_main calls))) (exp_obs calls erows)
+  end.
+(* the property judged on the REGENERATED MODEL, with the bookkeeping of Spec_Timer only (h: reading at which a message
+   was last handed over, snt: reading of the last KEEPALIVE): a call that carries a message never ends the session unless
+   the wire had been silent for more than H before it (flag list f, then either outcome), a call without one ends it with
+   4/0 exactly when the last message is more than H old; a KEEPALIVE exactly every H/3; H = 0:
+   nothing but the coded 2/6.  A case that fails here is a schedule on which the generated code breaks C12. *)
+Fixpoint prop_walk (H K h t snt : Z) (f : list Z) (l : list step) (o : list obs) : bool :=
+  match l, o with
+  | [], [] => true
+  | x :: l', ob :: o' =>
+    let c := t + dt x in
+    let sil := if real (inb x) then 0 else c - h in
+    let h' := if real (inb x) then c else h in
+    let n := c + dk x in
+    (* late: part of the schedule - the message handed over here reached the socket after a wire silence above H:
+       the property then allows the close as well as carrying on *)
+    let late := match f with z :: _ => negb (z =? 0) | [] => false end in
+    if (0 <? H) && (H <? sil) then
+      match ob, o' with Notified t' 4 0, [] => t' =? c | _, _ => false end
+    else
+      match ob with
+      | Notified t' cd sb =>
+        match o' with
+        | [] => ((H =? 0) && (cd =? 2) && (sb =? 6))
+                || ((0 <? H) && real (inb x) && late && (cd =? 4) && (sb =? 0) && (t' =? c))
+        | _ => false
+        end
+      | KaSent t' => (0 <? K) && (K <=? n - snt) && (t' =? n) && prop_walk H K h' n n (tl f) l' o'
+      | Quiet t' => ((K =? 0) || (n - snt <? K)) && (t' =? n) && prop_walk H K h' n snt (tl f) l' o'
+      end
+  | _, _ => false
+  end.
+Definition okp (x : Z * (Z * Z * Z) * list (Z * Z * Z * Z) * list Z * list (list Z) * list Z) : bool :=
+  match x with (H, (t_rt, t_ka, t_main), calls, _, _, fl) =>
+    let l := to_steps t_main calls in
+    prop_walk H (H / 3) t_ka t_main t_main fl l (run_main (session_init H t_rt t_ka t_main) l)
   end.
 Fixpoint bad {A} (f : A -> bool) (l : list A) (i : nat) : list nat :=
   match l with [] => [] | c :: l' => if f c then bad f l' (S i) else i :: bad f l' (S i) end.
@@ -363,11 +400,21 @@ def zl(xs):
     return '[' + ';'.join(f'({int(x)})' if int(x) < 0 else str(int(x)) for x in xs) + ']'
 
 
+def after_silence_flags(case, res):
+    """per executed step: 1 when the step hands over a message and the wire had been silent for more than H at some point
+    before the call (the property then allows closing with 4/0 as well as carrying on), else 0"""
+    H = case['H']
+    out = []
+    for st, (tc, _) in zip(case['steps'], res['times']):
+        out.append(1 if (H > 0 and st[1] != 'none' and longest_wire_silence(case, tc) > H) else 0)
+    return out
+
+
 def coq_case(case, res):
     calls = '[' + ';'.join(f'({c},{ty},{sc},{n})' for c, ty, sc, n in res['calls']) + ']'
     rows = '[' + ';'.join(zl(r) for r in res['rows']) + ']'
     return (f'({case["H"]}, ({int(case["t_rt"])},{int(case["t_ka"])},{int(case["t_main"])}), {calls}, '
-            f'{zl(res["init"])}, {rows})')
+            f'{zl(res["init"])}, {rows}, {zl(after_silence_flags(case, res))})')
 
 
 # ------------------------------------------------------------------------------- generation
@@ -432,6 +479,68 @@ def gen_case(rng, H, mode=None):
     return {'H': H, 't_rt': t_rt, 't_ka': t_ka, 't_main': t_main, 'steps': steps, 'mode': mode}
 
 
+LATE_GAPS = ['H-1', 'H', 'H+1', '2H', '10H']
+
+
+def gen_late(rng, H, gap=None, variant=None, kind=None):
+    """The loop is held up (a blocked write, a long batch): one call of the hold timer comes G seconds after the
+    previous one, G in {H-1, H, H+1, 2H, 10H} (+ a fraction).  Variants: 'queued' - the peer kept sending every H/3 s
+    at most, its messages waited in the socket and are handed over one per iteration (4th field of a step: how long
+    the message had been waiting); 'fresh' - one message, arrived as the loop comes back; 'none' - nothing arrived."""
+    K = max(H // 3, 1)
+    frac = lambda: rng.randrange(8) * TICK
+    t_rt = EPOCH + rng.randrange(100000) + frac()
+    t_ka = t_rt + rng.choice([0, TICK, 0.5, 1])
+    t_main = t_ka + rng.choice([0, 0, TICK, 0.875])
+    speakers = ['keepalive', 'update', 'eor', 'withdraw', 'refresh', 'update_bad_aggregator', 'update_bad_atomic']
+    pick = (lambda: kind) if kind else (lambda: rng.choice(speakers))
+    steps = []
+    for _ in range(rng.randint(0, 3)):
+        steps.append([rng.choice([TICK, 0.5, 1]), rng.choice(['none', 'keepalive', 'update']), 0])
+    if not steps or steps[-1][1] == 'none':
+        steps.append([TICK, pick(), 0])  # the stall starts right after a message
+    gap = gap or rng.choice(LATE_GAPS)
+    G = {'H-1': H - 1, 'H': H, 'H+1': H + 1, '2H': 2 * H, '10H': 10 * H}[gap] + rng.choice([0, 0, TICK, 0.5, 0.875])
+    variant = variant or rng.choice(['queued', 'queued', 'fresh', 'none'])
+    if variant == 'none':
+        steps.append([G, 'none', 0])
+    elif variant == 'fresh':
+        steps.append([G, pick(), 0, 0.0])
+    else:
+        period = rng.choice([1, K])
+        if G / period > 36:
+            period = K  # 10H / (H/3): about 30 messages
+        arrivals, a = [], period
+        while a <= G:
+            arrivals.append(a)
+            a += period
+        if not arrivals:
+            arrivals = [G]
+        now = G
+        for j, arr in enumerate(arrivals):
+            d = G if j == 0 else rng.choice([0, 0, TICK])
+            if j:
+                now += d
+            steps.append([d, pick(), 0, now - arr])
+    for _ in range(rng.randint(0, 3)):
+        steps.append([rng.choice([TICK, 0.5, 1, K]), rng.choice(['none', 'none', 'keepalive']), 0])
+    return {'H': H, 't_rt': t_rt, 't_ka': t_ka, 't_main': t_main, 'steps': steps, 'mode': f'late-{variant}'}
+
+
+def late_sweep(rng):
+    """every hold time x every late gap x {queued, fresh, none} x every message kind"""
+    out = []
+    for H in HOLDS:
+        if H == 0:
+            continue
+        for gap in LATE_GAPS:
+            out.append(gen_late(rng, H, gap, 'none'))
+            for kind in KINDS:
+                out.append(gen_late(rng, H, gap, 'fresh', kind))
+                out.append(gen_late(rng, H, gap, 'queued', kind))
+    return out
+
+
 def small_scope(H, L):
     """every schedule of length L over a small alphabet, from a fixed start"""
     import itertools
@@ -481,9 +590,32 @@ def gen_open(rng):
 # ------------------------------------------------------------------------------- property oracle
 
 
+def wire_arrivals(case):
+    """reading at which each message of the case reached the socket (hand-over time minus its waiting time), whether or
+    not the loop got as far as handing it over"""
+    t = case['t_main']
+    out = []
+    for st in case['steps']:
+        t += st[0]
+        if st[1] != 'none':
+            out.append(t - (st[3] if len(st) > 3 else 0.0))
+        t += st[2]
+    return out
+
+
+def longest_wire_silence(case, until):
+    """longest time without a message reaching the socket, up to `until`"""
+    last, longest = case['t_ka'], 0.0
+    for a in sorted(x for x in wire_arrivals(case) if x <= until):
+        longest, last = max(longest, a - last), max(last, a)
+    return max(longest, until - last)
+
+
 def oracle(case, res, objs):
-    """The property judged on what the implementation did, in REAL (fractional) time and on the WIRE
-    (a wire message of any kind is 'something received'), independently of the Coq model.
+    """The property judged on what the implementation did, in REAL (fractional) time, independently of the Coq model.
+    A message of any kind handed to the timer is 'something received'; a call that carries a message must not end the
+    session with 4/0 when the peer was never silent for more than H on the wire (when it was, closing and carrying on are
+    both accepted); a call without one may only end it when the last message was handed over more than H seconds before.
     -> list of (sig, what, step index)"""
     H = case['H']
     K = H // 3
@@ -492,9 +624,11 @@ def oracle(case, res, objs):
     last_kind = 'keepalive'
     prev_ka = case['t_main']
     prev_call = case['t_main']
-    longest = 0.0  # longest time without any message on the wire so far
-    for i, ((dt, kind, dk), row, (tc, tn)) in enumerate(zip(case['steps'], res['rows'], res['times'])):
+    longest = 0.0  # longest time without any message handed over so far
+    for i, (st, row, (tc, tn)) in enumerate(zip(case['steps'], res['rows'], res['times'])):
+        kind = st[1]
         longest = max(longest, tc - last)
+        gap = tc - prev_call
         if kind != 'none':
             last, last_kind = tc, kind
         silence = tc - last
@@ -504,12 +638,26 @@ def oracle(case, res, objs):
                 probs.append(('zero-hold-fired', f'hold time 0: NOTIFICATION 4/0 at step {i}', i))
             elif H > 0 and (cd, sb) != (4, 0):
                 probs.append((f'wrong-notification:{cd}/{sb}', f'hold time {H}: NOTIFICATION {cd}/{sb} from the timers at step {i}', i))
+            elif H > 0 and kind != 'none':
+                wire = longest_wire_silence(case, tc)
+                if fields_of(objs[kind])[1] != 0:
+                    sig = 'hold-early:received-update-not-counted'
+                elif wire <= H:
+                    sig = 'hold-early:message-in-hand'
+                else:
+                    # nothing reached the socket for more than H before this message: "a session on which nothing is received
+                    # for more than H seconds is closed with 4/0" - closing is allowed here, and so is carrying on
+                    # (counted in coverage.message_after_wire_silence)
+                    sig = None
+                if sig:
+                    probs.append((sig, f'hold time {H}: closed with 4/0 by a call that carries a message just read ({kind}); the previous '
+                                       f'call of the hold timer was {gap} s earlier (loop held up); the peer was never silent for more '
+                                       f'than {wire} s on the wire', i))
             elif H > 0 and not longest > H:
-                # (a close at a check that follows a message is accepted when the peer HAD been silent for more than H before it)
                 ignored = fields_of(objs[last_kind])[1] != 0
                 sig = 'hold-early:received-update-not-counted' if ignored else 'hold-early'
                 probs.append((sig, f'hold time {H}: closed with 4/0 although the peer was never silent for more than {longest} s '
-                                   f'(last message on the wire: {last_kind}, {silence} s before the check)', i))
+                                   f'(last message handed over: {last_kind}, {silence} s before the check)', i))
             break
         if H > 0 and silence >= H + 1:
             probs.append(('hold-late', f'hold time {H}: still open at a check {silence} s after the last message', i))
@@ -543,7 +691,8 @@ def open_oracle(case, got):
 
 
 def shrink(case, sig, objs):
-    """drop steps (from the end, then one by one) while the same finding persists"""
+    """cut the schedule after the failing step, then merge steps one by one, as long as the SAME finding persists
+    (the signature carries the narrative: e.g. ':message-in-hand' needs the queued messages that show the peer kept sending)"""
 
     def fails(c):
         try:
@@ -552,17 +701,26 @@ def shrink(case, sig, objs):
             return False
 
     cur = dict(case)
-    steps = list(cur['steps'])
+    steps = [list(x) for x in cur['steps']]
     probs = [p for p in oracle(cur, run_impl(cur, objs), objs) if p[0] == sig]
-    if probs:
+    if probs and fails(dict(cur, steps=steps[: probs[0][2] + 1])):
         steps = steps[: probs[0][2] + 1]
     i = len(steps) - 2
     while i >= 0:
-        cand = steps[:i] + [[steps[i][0] + steps[i][2] + steps[i + 1][0]] + steps[i + 1][1:]] + steps[i + 2:]
-        c2 = dict(cur, steps=cand)
-        if fails(c2):
-            steps = cand
+        if i + 1 < len(steps):
+            nxt = list(steps[i + 1])
+            nxt[0] = steps[i][0] + steps[i][2] + nxt[0]
+            cand = steps[:i] + [nxt] + steps[i + 2:]
+            if fails(dict(cur, steps=cand)):
+                steps = cand
         i -= 1
+    # queued messages behind the failing call that are not needed
+    j = len(steps) - 1
+    while j > 0:
+        cand = steps[:j] + steps[j + 1:]
+        if fails(dict(cur, steps=cand)):
+            steps = cand
+        j -= 1
     cur['steps'] = steps
     return cur
 
@@ -571,24 +729,56 @@ def shrink(case, sig, objs):
 
 
 def evaluate(run, tag, items, fn, per=150):
+    """fn: one Coq predicate name, or a tuple of names (then a tuple of bad-index lists is returned)"""
+    fns = fn if isinstance(fn, tuple) else (fn,)
     shards = common.chunked(list(range(len(items))), per)
 
     def defs(idx):
-        return 'Definition cases := [' + ';\n'.join(items[i] for i in idx) + f'].\nEval vm_compute in (bad {fn} cases 0).\n'
+        return ('Definition cases := [' + ';\n'.join(items[i] for i in idx) + '].\n'
+                + ''.join(f'Eval vm_compute in (bad {f} cases 0).\n' for f in fns))
 
     res = common.eval_cases(HEADER, defs, shards, tag)
-    ok = all(rc == 0 for rc, _, _ in res)
-    bad = []
+    ok = all(rc == 0 and len(parsed) == len(fns) for rc, _, parsed in res)
+    bads = [[] for _ in fns]
     for shard, (rc, out, parsed) in zip(shards, res):
-        if rc == 0 and parsed:
-            bad += [shard[j] for j in common.nat_list_of(parsed[0])]
+        if rc == 0 and len(parsed) == len(fns):
+            for k in range(len(fns)):
+                bads[k] += [shard[j] for j in common.nat_list_of(parsed[k])]
     log = '\n'.join(out for rc, out, _ in res if rc != 0)[-2000:]
-    return ok, bad, log
+    return (ok, tuple(bads), log) if isinstance(fn, tuple) else (ok, bads[0], log)
+
+
+def hpeer_held_up(hold, block_s, nroutes=1500, block_at=500):
+    """harness/hpeer.py measure_loop_gap (real Peer._main over the rig, virtual time) with one write of the batch blocked
+    for block_s > hold seconds; every NOTIFICATION the speaker under test writes is recorded"""
+    from harness import hpeer
+    import exabgp.reactor.protocol as pm
+
+    notes = []
+    real = pm.Protocol.new_notification
+
+    async def new_notification(self, notification):
+        notes.append([int(notification.code), int(notification.subcode)])
+        return await real(self, notification)
+
+    pm.Protocol.new_notification = new_notification
+    try:
+        row = hpeer.measure_loop_gap(hold, nroutes, block_s, block_at)
+    finally:
+        pm.Protocol.new_notification = real
+    row['notifications'] = notes
+    return row
 
 
 def replay(path):
     payload = json.load(open(path))
     case = payload.get('case', payload)
+    if 'hpeer' in case:
+        row = hpeer_held_up(case['hpeer']['hold'], case['hpeer']['block_s'])
+        print(json.dumps(row))
+        bad = row['session_ended_during_batch'] or row['notifications']
+        print('replay:', 'property violated' if bad else 'property holds on this input')
+        return 1 if bad else 0
     objs, proto = classify_wire()
     if 'events' in case:
         got = run_open_wait(case, objs, proto)
@@ -621,7 +811,8 @@ def check(tier, seed):
         'the readings of int(time.time()) never decrease (time.time() is not monotonic: a clock stepped backwards is outside the schedules)',
         'the loop gap delta (time between two consultations of the same timer) is a parameter of the theorems; that the '
         'asyncio loop keeps it small while a long outbound batch is written (25 UPDATE groups per iteration, blocking '
-        'sock_sendall) is NOT proved and is not measured here: it belongs to the peer-level harness (H-peer) of C05/C10',
+        'sock_sendall) is NOT proved; it is measured by C05 (evidence/C05.json coverage.loop_gap_delta_measured_s); here one '
+        'H-peer scenario holds the loop up longer than H and checks that a peer that keeps sending is not closed',
         'the time new_keepalive() takes between need_ka() returning True and the bytes reaching the transport is not modelled',
     ]
     common.standard_build(run, ['T3'])
@@ -637,6 +828,16 @@ def check(tier, seed):
     for H in HOLDS:
         for _ in range(per_hold):
             cases.append(gen_case(rng, H))
+    # the loop held up: late calls of the hold timer, with and without a message in hand
+    n_late = 0
+    for c in late_sweep(rng):
+        cases.append(c)
+        n_late += 1
+    for H in HOLDS:
+        if H:
+            for _ in range(12 if tier == 'quick' else 300):
+                cases.append(gen_late(rng, H))
+                n_late += 1
     L = 2 if tier == 'quick' else 3
     exhaustive = 0
     for H in (0, 3, 4) if tier == 'quick' else (0, 3, 4, 9):
@@ -649,16 +850,21 @@ def check(tier, seed):
     modes = collections.Counter()
     kinds = collections.Counter()
     margin = collections.Counter()
+    after_silence = collections.Counter()
     for idx, case in enumerate(cases):
         res = run_impl(case, objs)
         results.append(res)
         items.append(coq_case(case, res))
         modes[case['mode']] += 1
-        for (dt, kind, dk), row in zip(case['steps'], res['rows']):
+        for st, row in zip(case['steps'], res['rows']):
+            kind = st[1]
             kinds[kind] += 1
             hist[{0: 'quiet', 1: 'keepalive-sent', 2: f'notify-{row[1]}/{row[2]}'}[row[0]]] += 1
         for sig, what, i in oracle(case, res, objs):
             fails.append((sig, what, idx))
+        for fl, row in zip(after_silence_flags(case, res), res['rows']):
+            if fl:
+                after_silence['closed-4/0' if row[0] == 2 else 'carried-on'] += 1
         # how close to the boundary the checks come (integer readings)
         if case['H'] > 0:
             for (c, ty, sc, n), row in zip(res['calls'], res['rows']):
@@ -666,7 +872,7 @@ def check(tier, seed):
                 if -2 <= dlt <= 2:
                     margin[f'elapsed-H={dlt}:{"fires" if row[0] == 2 else "open"}'] += 1
 
-    ok, bad, log = evaluate(run, 'c12', items, 'okc')
+    ok, (bad, pbad), log = evaluate(run, 'c12', items, ('okc', 'okp'))
     run.obligation('model evaluation (vm_compute of Gen_Timer.check_ka/need_ka/.. and Model_Timer.run_main on every case) ran', ok, log)
     first = ''
     if bad:
@@ -674,6 +880,18 @@ def check(tier, seed):
         first = json.dumps({'case': c, 'impl': results[bad[0]]['rows'], 'init': results[bad[0]]['init']})[:1500]
     run.obligation(f'correspondence: real ReceiveTimer/SendTimer (every outcome and field after every call) = generated functions = '
                    f'loop model on {len(cases)} schedules', not bad, f'{len(bad)} disagreements; first: {first}')
+
+    # the property searched on the regenerated model (this is what yields the witness schedule when a proof breaks)
+    pfirst = ''
+    if pbad:
+        k = min(pbad, key=lambda i: len(results[i]['rows']))  # the shortest witness schedule
+        c = cases[k]
+        pfirst = json.dumps({'H': c['H'], 't_ka': c['t_ka'], 't_main': c['t_main'], 'steps': c['steps'][: len(results[k]['rows'])],
+                             'model_and_implementation_rows': results[k]['rows'][-2:]})[:1500]
+    run.obligation(f'property on the regenerated model: Model_Timer.run_main over Gen_Timer judged by the Spec_Timer bookkeeping '
+                   f'(message in hand: no 4/0 unless the wire was silent for more than H before it; none: 4/0 iff last message > H old; KEEPALIVE every H/3; H = 0) on {len(cases)} schedules',
+                   not pbad, f'{len(pbad)} schedules on which the generated code breaks C12; first: {pfirst}')
+    model_witness = {i for i in pbad}
 
     # ---- direct calls on arbitrary states
     nd = 1500 if tier == 'quick' else 30000
@@ -730,6 +948,23 @@ def check(tier, seed):
                    f'Spec_Timer.open_expected on {no} arrival scripts', not obad,
                    f'{len(obad)} disagreements; first: {json.dumps(ocases[obad[0]]) if obad else ""}')
 
+    # ---- H-peer: the real Peer._main held up longer than H by a blocked write while the scripted peer keeps sending
+    hp_fail = []
+    hp_rows = []
+    try:
+        for hold, block in ((3, 4.5), (9, 12.0)) if tier == 'quick' else ((3, 4.5), (3, 31.0), (9, 12.0), (30, 61.0), (90, 95.0)):
+            row = hpeer_held_up(hold, block)
+            hp_rows.append(row)
+            if row['session_ended_during_batch'] or row['notifications']:
+                hp_fail.append(row)
+        hp_ok, hp_detail = not hp_fail, str(hp_fail or hp_rows)[:900]
+    except Exception as exc:
+        hp_ok, hp_detail = False, f'{type(exc).__name__}: {exc}'
+    run.coverage['hpeer_loop_held_up'] = hp_rows
+    run.obligation('H-peer (harness/hpeer.py rig, real Peer/Protocol/timers under virtual time): a write of the outbound batch blocks '
+                   'longer than H while the remote speaker sends a KEEPALIVE every H/3 s: the session stays established, no NOTIFICATION',
+                   hp_ok, hp_detail)
+
     # ---- property oracle
     run.obligation(f'property oracle: hold timer (4/0 iff silence > H, judged in real time on the wire), KEEPALIVE spacing, H = 0, '
                    f'on the raw outcomes of {len(cases)} schedules', not fails,
@@ -737,6 +972,8 @@ def check(tier, seed):
     run.obligation(f'property oracle: 5/1 exactly when no OPEN arrives within the wait, on {no} arrival scripts', not ofails,
                    f'{len(ofails)} failing; first: {ofails[0][:2] if ofails else ""}')
     seen = set()
+    # the finding whose witness shows a peer that kept sending comes first
+    fails.sort(key=lambda f: (f[0] != 'hold-early:message-in-hand', len(cases[f[2]]['steps'])))  # stable
     for sig, what, idx in fails:
         if sig in seen:
             continue
@@ -750,13 +987,25 @@ def check(tier, seed):
             continue
         seen.add(sig)
         run.fail_case(sig, what, oc)
+    for row in hp_fail[:1]:
+        run.fail_case('hold-early:loop-held-up:hpeer',
+                      f'hold time {row["hold"]}: a write blocked for {row["block_s"]} s while the peer sent a KEEPALIVE every '
+                      f'{max(row["hold"] / 3.0, 0.5)} s: session left ESTABLISHED, NOTIFICATION(s) written: {row["notifications"]}',
+                      {'hpeer': {'hold': row['hold'], 'block_s': row['block_s']}})
+    # a schedule that breaks the property on the model but not on the implementation would be a correspondence failure (reported above)
+    run.coverage['model_property_witnesses'] = len(model_witness)
 
     distinct = {(c['H'], json.dumps(c['steps'])) for c in cases if len(c['steps']) >= 3}
     run.coverage.update({
         'evaluations': len(cases) + nd + no + 65536,
         'distinct_nontrivial': len(distinct),
+        'late_call_schedules': n_late,
+        'message_after_wire_silence': {'what': 'calls that hand over a message after the wire had been silent for more than H (loop held '
+                                               'up): the property allows either outcome', **dict(after_silence)},
         'rule': f'{per_hold} random schedules (modes steady/silent/boundary/burst/slow/ignored; fractional seconds on a 1/8 s grid; '
-                f'4..36 iterations) for each hold time of {HOLDS} + every schedule of length {L} over '
+                f'4..36 iterations) for each hold time of {HOLDS} + {n_late} schedules with a late call of the hold timer (gap H-1, H, H+1, '
+                '2H, 10H since the previous call; message queued while the peer kept sending / fresh / none; every message kind) '
+                f'+ every schedule of length {L} over '
                 '{dt in 0,1,K,H,H+1} x {nothing, KEEPALIVE, UPDATE} x {dk in 0,1} for small hold times '
                 f'({exhaustive} runs, exhaustive for that scope) + {nd} direct calls on arbitrary states + {no} open-wait scripts + '
                 'keepalive() on all 65536 hold times; non-trivial = distinct (hold time, schedule) with at least 3 iterations',
